@@ -199,6 +199,10 @@ class Driver:
             doc = {}
             if mn or op or ctx.rng.random() < 0.2:
                 doc["config"] = {"mnemonics-full-match": mn, "operands-full-match": op}
+                if (mn or op) and ctx.rng.random() < 0.4:
+                    # an omitted flag is off: name only the flags that are on (the previous rule of this process had other settings)
+                    doc["config"] = {k: v for k, v in doc["config"].items() if v}
+                    ctx.event("rules_naming_only_the_flags_that_are_on")
             doc["pattern"] = share_equal_subtrees(pattern) if ctx.rng.random() < self.alias_twin else pattern
             text = real.dump_rule(doc)
             if "*id0" in text:
